@@ -17,9 +17,10 @@ from statistics import NormalDist
 ND = NormalDist()
 S = 10**6
 ALPHAS = [10, 20, 50, 100, 200, 500, 900]      # permille
+TINY = {"1e-9": 1e-9, "1e-12": 1e-12, "1e-15": 1e-15}
 N2MAX = 64
 NMAX_PPF = 16
-ROOT_NMAX = 40
+ROOT_NMAX = 220
 SQRT_MAX = 400
 
 
@@ -27,6 +28,10 @@ def build():
     t = {"scale": S}
     t["z6"] = {str(a): round(S * ND.inv_cdf(1 - a / 2000.0)) for a in ALPHAS}
     t["zl6"] = {str(a): round(S * ND.inv_cdf(a / 2000.0)) for a in ALPHAS}
+    # tiny significance levels, keyed by name; by symmetry z(1 - a/2) = -z(a/2) (no cancellation)
+    for name, a in TINY.items():
+        t["z6"][name] = round(-S * ND.inv_cdf(a / 2.0))
+        t["zl6"][name] = round(S * ND.inv_cdf(a / 2.0))
     se = []
     for n2 in range(0, N2MAX + 1):
         row = []
